@@ -121,7 +121,7 @@ std::string op_tree(std::string const &_op, line_t const &L)
     mark(t);
     g_log.clear();
     tree<T> const r{
-        with_cat<true>(L.cat(0), t, [](auto &&x) { return fcppt::container::tree::map<tree<T>>(FWD(x), [](T const &v) { return v.derive(1); }); })};
+        with_cat<true>(L.cat(0), t, [](auto &&x) { return fcppt::container::tree::map<tree<T>>(FWD(x), [](auto &&v) { return thru{}(FWD(v)); }); })};
     event_log const log{g_log};
     return finish("-", tree_slots(r), {tree_slots(t)}, log);
   }
@@ -353,7 +353,13 @@ std::string op_tree_more(std::string const &_op, line_t const &L)
     auto t{mk_tree<T>(L.args[0])};
     mark(t);
     g_log.clear();
-    t.sort([](T const &a, T const &b) { return a.read() < b.read(); });
+    t.sort(
+        [](auto &&a, auto &&b)
+        {
+          cmp_note<decltype(a)>();
+          cmp_note<decltype(b)>();
+          return a.read() < b.read();
+        });
     event_log const log{g_log};
     return finish("-", "-", {tree_slots(t)}, log);
   }
